@@ -27,6 +27,10 @@ CM_JAR = '/opt/veriftools/tla/CommunityModules-deps.jar'
 NCPU = os.cpu_count() or 4
 
 
+class Budget(BaseException):
+    """execution budget of one implementation call exhausted (raised from a timer / tracer)"""
+
+
 class MachineryError(Exception):
     """The verification machinery itself failed (never a verdict)."""
 
@@ -65,7 +69,7 @@ def call(fn, *a, **k):
                 v = fn(*a, **k)
                 kind = 'value'
             except BaseException as e:   # noqa: we classify everything
-                if isinstance(e, (KeyboardInterrupt, SystemExit)):
+                if isinstance(e, (KeyboardInterrupt, SystemExit, Budget)):
                     raise
                 v = e
                 kind = 'error'
